@@ -86,7 +86,7 @@ static uint64_t thread_work(uint64_t seed, uint64_t index, int tid, const Shared
   auto pause = [&]() { if (tl) tl->stamps.push_back(rdtsc()); if (!delays) return; unsigned w = (unsigned)rd.below(8); if (w == 0) sched_yield(); else if (w < 3) { volatile unsigned spin = (unsigned)rd.below(300); while (spin) spin = spin - 1; } };
   // (1) an API history on this thread's own documents, judged by the model
   {
-    HistOpt ho; ho.ndocs = (int)r.range(1, 2); ho.nrefs = 3; ho.key_pool = 4; ho.max_nodes = 40;
+    HistOpt ho; ho.ndocs = (int)r.range(1, 2); ho.nrefs = 3; ho.key_pool = 4; ho.max_nodes = 40; ho.float32_only = !kUseDouble;
     Model m(ho.ndocs, ho.nrefs);
     AjExec x(ho.ndocs, ho.nrefs, (tid & 1) != 0);
     Rng rx(seed, 300 + (uint64_t)tid, index); x.rng = &rx;
